@@ -206,6 +206,16 @@ def _idxguard(chk, ctx):
         return
     rel, q, fn = conv[0]
     idx, guards = _idx_guards(fn)
+    # expected count on a tree without such guards is zero: a built-in positive example must match on every run
+    ex = ast.parse("def _iterator(self):\n    i = 0\n    while i < len(self._schedule):\n"
+                   "        a, (n0, n1, st) = _convert_action(self._schedule[i])\n"
+                   "        if a == 'Forward':\n            pass\n"
+                   "        elif a in ('Discard', 'Discard_memory'):\n            if i <= 1:\n                raise ValueError\n"
+                   "        i += 1\n").body[0]
+    exi, exg = _idx_guards(ex)
+    if exi != "i" or len(exg) != 1 or exg[0][1] != 2 or exg[0][2] != {"Discard", "Discard_memory"}:
+        chk.error("C02.IDXGUARD: built-in positive example not matched")
+    chk.note(f"C02.IDXGUARD: index variable `{idx}`, {len(guards)} position guard(s) found in {q}; built-in positive example matched")
     # builders the schedule classes of the converter module call by name
     entry = set()
     for r_, q_, f_ in ctx.repo.all_functions():
